@@ -37,6 +37,7 @@ type Recorder struct {
 	FailAt   map[int]bool     // ordered call indices that fail
 	FailDesc map[string]bool  // instance ids whose DescribeInstances fails
 	DescOdd  map[string]int   // instance ids whose DescribeInstances is malformed (reservation count)
+	Conflict bool             // injected UPDATE failures are 409 Conflicts: a concurrent writer changed the node's taints meanwhile
 	n        int              // ordered calls so far
 }
 
@@ -49,6 +50,7 @@ func (r *Recorder) reset() {
 	r.FailAt = map[int]bool{}
 	r.FailDesc = map[string]bool{}
 	r.DescOdd = map[string]int{}
+	r.Conflict = false
 }
 
 // ordered registers an ordered call and says whether it must fail.
@@ -111,9 +113,27 @@ func (n *nodeSim) Get(ctx context.Context, name string, opts metav1.GetOptions) 
 
 func (n *nodeSim) Update(ctx context.Context, node *v1.Node, opts metav1.UpdateOptions) (*v1.Node, error) {
 	_, fail := n.k.rec.ordered()
-	_, ok := n.k.store[node.Name]
+	cur, ok := n.k.store[node.Name]
 	if fail || !ok {
 		n.k.rec.record(cUpdateNode(protoNode(node)), false, rFail())
+		if fail && ok && n.k.rec.Conflict {
+			// optimistic-concurrency conflict: somebody else (say the node lifecycle controller) rewrote the taints
+			// between our GET and our UPDATE — drop the first foreign taint, or add one in front
+			mod := cur.DeepCopy()
+			dropped := false
+			for i, t := range mod.Spec.Taints {
+				if t.Key != escKey && t.Key != forceKey {
+					mod.Spec.Taints = append(mod.Spec.Taints[:i:i], mod.Spec.Taints[i+1:]...)
+					dropped = true
+					break
+				}
+			}
+			if !dropped {
+				mod.Spec.Taints = append([]v1.Taint{{Key: "node.kubernetes.io/not-ready", Effect: v1.TaintEffectNoExecute}}, mod.Spec.Taints...)
+			}
+			n.k.store[node.Name] = mod
+			return nil, apierrors.NewConflict(nodeGR, node.Name, errInjected)
+		}
 		if fail {
 			return nil, errInjected
 		}
